@@ -205,6 +205,58 @@ Qed.
 Theorem set_fails_unchanged f v fv : f_max f < v -> set_val f v fv = None.
 Proof. intros H. unfold set_val. assert (E : (f_max f <? v) = true) by lia. rewrite E. reflexivity. Qed.
 
+(* ------------------------------------------------------------ the same laws with the map identity (several faces) *)
+Theorem set_on_succeeds_iff face f v x :
+  (exists x', set_val_on face f v x = Some x') <-> (v <= f_max f /\ (fv_map x = None \/ fv_map x = Some face)).
+Proof.
+  unfold set_val_on. split.
+  - intros [x' H]. destruct (set_val f v (fv_words x)) as [w|] eqn:E; [|discriminate].
+    split; [apply (set_succeeds_iff f v (fv_words x)); eexists; exact E|].
+    destruct (fv_map x) as [m|]; [|left; reflexivity]. destruct (m =? face) eqn:Em; [apply N.eqb_eq in Em; subst m; right; reflexivity|discriminate].
+  - intros [Hv Hm]. destruct (proj2 (set_succeeds_iff f v (fv_words x)) Hv) as [w E]. rewrite E.
+    destruct Hm as [-> | ->]; [eexists; reflexivity|]. rewrite N.eqb_refl. eexists; reflexivity.
+Qed.
+
+(* a successful write binds the object to the writer's face (and only a successful one does: a refusal returns nothing) *)
+Theorem set_on_binds face f v x x' : set_val_on face f v x = Some x' ->
+  fv_map x' = Some face /\ set_val f v (fv_words x) = Some (fv_words x').
+Proof.
+  unfold set_val_on. destruct (set_val f v (fv_words x)) as [w|]; [|discriminate]. destruct (fv_map x) as [m|].
+  - destruct (m =? face) eqn:Em; [apply N.eqb_eq in Em; subst m|discriminate]. intros H. injection H as <-. split; reflexivity.
+  - intros H. injection H as <-. split; reflexivity.
+Qed.
+
+Theorem get_set_on_same face f v x x' : field_ok f -> set_val_on face f v x = Some x' -> get_val_on face f x' = v.
+Proof.
+  intros Hf H. destruct (set_on_binds _ _ _ _ _ H) as [Hm Hw]. unfold get_val_on. rewrite Hm, N.eqb_refl.
+  exact (get_set_same f v _ _ Hf Hw).
+Qed.
+
+(* every other feature of that face keeps its value when the object already belonged to the face ... *)
+Theorem get_set_on_other face f g v x x' : field_ok f -> field_ok g -> disjoint f g -> fv_map x = Some face ->
+  set_val_on face f v x = Some x' -> get_val_on face g x' = get_val_on face g x.
+Proof.
+  intros Hf Hg Hd Hb H. destruct (set_on_binds _ _ _ _ _ H) as [Hm Hw]. unfold get_val_on. rewrite Hm, Hb, N.eqb_refl.
+  exact (get_set_other f g v _ _ Hf Hg Hd Hw).
+Qed.
+
+(* ... and seen from any other face the object reads 0 before and after *)
+Theorem get_set_on_foreign face other f g v x x' : other <> face -> fv_map x = None \/ fv_map x = Some face ->
+  set_val_on face f v x = Some x' -> get_val_on other g x' = 0 /\ get_val_on other g x = 0.
+Proof.
+  intros Hne Hb H. destruct (set_on_binds _ _ _ _ _ H) as [Hm _]. unfold get_val_on. rewrite Hm.
+  assert (E : (face =? other) = false) by (apply N.eqb_neq; congruence). rewrite E.
+  split; [reflexivity|]. destruct Hb as [-> | ->]; [reflexivity|]. rewrite E. reflexivity.
+Qed.
+
+Theorem set_on_fails_unchanged face f v x : f_max f < v \/ (exists m, fv_map x = Some m /\ m <> face) -> set_val_on face f v x = None.
+Proof.
+  intros [H|[m [Hm Hne]]]; unfold set_val_on.
+  - rewrite (set_fails_unchanged f v _ H). reflexivity.
+  - destruct (set_val f v (fv_words x)); [|reflexivity]. rewrite Hm. assert (E : (m =? face) = false) by (apply N.eqb_neq; exact Hne).
+    rewrite E. reflexivity.
+Qed.
+
 (* ------------------------------------------------------------ allocation: all fields handed out are disjoint *)
 Fixpoint alloc (maxvals : list N) (bo : N) : option (list fref) :=
   match maxvals with
